@@ -23,26 +23,27 @@ type Unit struct {
 
 // UnitResult is what a worker reports.
 type UnitResult struct {
-	Unit        string
-	States      int
-	Transitions int
-	Validated   int
-	Audited     int
-	Evaluations int
-	Distinct    map[string]bool // distinct non-trivial outcome classes hit
-	DepthDone   int
-	Exhaustive  bool
-	CapHit      string
-	Violations  []Violation
-	Cover       map[string]int
-	Samples     []interface{}
-	Vacuous     []string
-	WallS       float64
+	Unit                           string
+	States                         int
+	Transitions                    int
+	Validated                      int
+	Audited                        int
+	AuditActions, AuditKeyMismatch int
+	Evaluations                    int
+	Distinct                       map[string]bool // distinct non-trivial outcome classes hit
+	DepthDone                      int
+	Exhaustive                     bool
+	CapHit                         string
+	Violations                     []Violation
+	Cover                          map[string]int
+	Samples                        []interface{}
+	Vacuous                        []string
+	WallS                          float64
 }
 
 // FromE1 converts an E1 result.
 func FromE1(r Result) UnitResult {
-	u := UnitResult{Unit: r.Scenario, Audited: r.Audited, Evaluations: r.Evaluations, States: r.States, Transitions: r.Transitions, Validated: r.Validated,
+	u := UnitResult{Unit: r.Scenario, Audited: r.Audited, AuditActions: r.AuditActions, AuditKeyMismatch: r.AuditKeyMismatch, Evaluations: r.Evaluations, States: r.States, Transitions: r.Transitions, Validated: r.Validated,
 		DepthDone: r.DepthDone, Exhaustive: r.Exhaustive, CapHit: r.CapHit, Violations: r.Violations, Cover: r.Cover,
 		Vacuous: r.Vacuous, WallS: r.WallS, Distinct: map[string]bool{}}
 	for _, s := range r.Samples {
@@ -184,7 +185,7 @@ var unsafeChars = regexp.MustCompile(`[^A-Za-z0-9_.-]+`)
 func Finish(p *Property, tier string, seed int, results []UnitResult, root string, wall float64) int {
 	findings := LoadFindings(filepath.Join(root, "known_findings.json"))
 	cov := map[string]interface{}{}
-	var states, trans, valid, evals, audited int
+	var states, trans, valid, evals, audited, auditActs, auditMis int
 	distinct := map[string]bool{}
 	exhaustive := true
 	var caps []string
@@ -198,6 +199,8 @@ func Finish(p *Property, tier string, seed int, results []UnitResult, root strin
 		trans += r.Transitions
 		valid += r.Validated
 		audited += r.Audited
+		auditActs += r.AuditActions
+		auditMis += r.AuditKeyMismatch
 		evals += r.Evaluations
 		for k := range r.Distinct {
 			distinct[k] = true
@@ -242,6 +245,8 @@ func Finish(p *Property, tier string, seed int, results []UnitResult, root strin
 	}
 	if audited > 0 {
 		cov["canonical_key_collisions_audited"] = audited
+		cov["audit_actions_compared"] = auditActs
+		cov["audit_successor_key_mismatches"] = auditMis
 	}
 	cov["rule"] = p.Rule
 	cov["samples"] = samples
